@@ -3311,7 +3311,7 @@ Definition hinv (c : cfg) (s : hstate) : Prop := forall slot u, get s slot = Som
 
 Definition sp_mutation (o : op) : bool :=
   match o with
-  | OSpAppend _ _ _ | OSpDelete _ _ | OSpSet _ _ _ | OSpSort _ | OSpSortAbs _ | OSpAdopt _ => true
+  | OSpAppend _ _ _ | OSpDelete _ _ | OSpSet _ _ _ | OSpSort _ | OSpSortAbs _ | OSpAdopt _ | OSpIterate _ _ => true
   | _ => false
   end.
 
@@ -3355,7 +3355,7 @@ Section Histories.
                              forall slot u, get s slot = Some u -> IsSpecialScheme c u = false) ->
     hinv c (fst (hstep idna_raw c s o)).
   Proof.
-    intros s o H Hsp. destruct o as [slot w v|slot ref|ref|from|slot n v|slot n|slot n v|slot|slot|slot n|slot|slot];
+    intros s o H Hsp. destruct o as [slot w v|slot ref|ref|from|slot n v|slot n|slot n v|slot|slot|slot n|slot|slot|slot md];
       cbn [hstep sp_mutation] in *.
     - destruct (get s slot) as [u|] eqn:E; [|exact H].
       destruct (setter idna_raw c w u v) as [u'|] eqn:ES; cbn [fst].
@@ -3393,6 +3393,7 @@ Section Histories.
       + intros u2 E2. injection E2 as <-.
         apply sp_update_Inv; [exact Hq| |apply ensure_sp_Inv; apply (H slot u E)].
         rewrite ensure_sp_special. apply (Hns slot u E).
+    - destruct (Hsp eq_refl) as [Hq Hns]. apply with_sp_Inv; [exact H|exact Hq|apply Hns].
   Qed.
 End Histories.
 Print Assumptions hstep_Inv.
